@@ -121,10 +121,31 @@ func runCatalog(id string, toks []string) (res string) {
 			return "nil-base"
 		}
 		var ts []string
+		bad := ""
 		for _, c := range s.Characteristics {
 			ts = append(ts, c.Type)
+			// the characteristics INSIDE a constructed service: what is stored has the declared type and lies within the
+			// bounds the service declares for it (reported only when it does not)
+			var v, mn, mx float64
+			var hv, hmn, hmx bool
+			for _, q := range []struct {
+				x   interface{}
+				f   *float64
+				has *bool
+			}{{c.Value, &v, &hv}, {c.MinValue, &mn, &hmn}, {c.MaxValue, &mx, &hmx}} {
+				switch x := q.x.(type) {
+				case int:
+					*q.f, *q.has = float64(x), true
+				case float64:
+					*q.f, *q.has = x, true
+				}
+			}
+			if hv && ((hmn && v < mn) || (hmx && v > mx) || (hmn && hmx && mn > mx)) {
+				bad += fmt.Sprintf(" inside=%s:%s_outside_%s..%s", c.Type, numText(c.Value), numText(c.MinValue), numText(c.MaxValue))
+			}
+			bad += strings.Replace(servedView(c), " served=", " inside-served="+c.Type+":", 1)
 		}
-		return fmt.Sprintf("type=%s chars=%s", s.Type, strings.Join(ts, ","))
+		return fmt.Sprintf("type=%s chars=%s", s.Type, strings.Join(ts, ",")) + bad
 	case "accessories":
 		// every accessory constructor, once with a minimal Info and once with a fully populated one:
 		// <name>:<#services>:<#characteristics>:<svcType>[<charType>,...]/<svcType>[...]...
